@@ -118,6 +118,10 @@ def library_program(r, layout=False):
         text = layouts.random_layout([t for l in body for t in l], r)
     else:
         text = layouts.canonical(body)
+    if r.random() < 0.6:
+        # keywords are matched by kind: definitions and uses may spell them differently
+        lib = layouts.respell(lib, r, 0.4)
+        text = layouts.respell(text, r, 0.4)
     if r.random() < 0.5:
         files = {"main": 'include "lib"\n' + text, "lib": lib}
     else:
